@@ -91,7 +91,8 @@ def run_case(seed, idx, rec):
         _OPS.update(build_ops())
     names = sorted(_OPS)
     rng = core.rng_for(seed, PROP, idx)
-    gen = resgen.gen_result(rng)
+    gen = resgen.gen_result(rng, kind='external' if rng.random() < 0.08
+                            else None)
     res, kind = gen['result'], gen['kind']
     case = {'seed': seed, 'idx': idx}
     rec.count('results')
@@ -124,7 +125,7 @@ def run_case(seed, idx, rec):
                           f'(verdict {verdict0} -> {verdict1})', case)
             dig0, verdict0 = dig1, verdict1
     # evaluating again gives the same thing
-    if kind != 'failed':
+    if kind not in ('failed',):
         try:
             again = res.test.evaluate()
         except Exception as err:  # pylint: disable=broad-except
